@@ -86,6 +86,22 @@ func (w *World) Do(label string, op func() error) error {
 	return err
 }
 
+// DoMaybe is Do for operations that usually do not reach the file system (a write into a user-space buffer): op
+// reports whether the directory may have changed, and only then the image is taken (still under the world lock).
+func (w *World) DoMaybe(label string, op func() (changed bool, err error)) error {
+	w.mu.Lock()
+	defer w.mu.Unlock()
+	w.ops++
+	if w.OnOp != nil {
+		w.OnOp(label)
+	}
+	changed, err := op()
+	if w.enabled && changed {
+		w.imageLocked(label)
+	}
+	return err
+}
+
 // Snapshot takes an image now (e.g. the initial state), under the world lock.
 func (w *World) Snapshot(label string) {
 	w.mu.Lock()
